@@ -4,7 +4,7 @@
 use crate::driver::{Out, SetOut};
 use crate::engine::{boxed, CheckResult, Ctx, Prop, Run, Tier};
 use crate::gen;
-use crate::interp::{check_strict, livelock_check, run_ops_fmt, Ev, Op, RunSpec, Trace};
+use crate::interp::{check_strict, check_strict_opt, livelock_check, run_ops_fmt, Ev, Op, RunSpec, Trace};
 use crate::light::{fmt_name, read_all, Mode};
 use crate::model::{Format, Model, NErr, Terminal};
 use crate::policy::{PolEvent, PolKind};
@@ -125,7 +125,7 @@ fn fq_group_extent(input: &[u8], byte: usize) -> (usize, bool) {
 }
 
 /// does parsing record `j` (or the terminal group for j == #records) need a buffer larger than `cur`?
-fn needs(m: &Model, input: &[u8], j: usize, cur: usize) -> Option<bool> {
+pub fn needs(m: &Model, input: &[u8], j: usize, cur: usize) -> Option<bool> {
     match m.format {
         Format::Fasta => {
             if j < m.recs.len() {
@@ -194,7 +194,11 @@ impl Prop for Growth {
         livelock_check(f, &t)?;
         let events = all_events(&t);
         let has_exact = c.ops.iter().any(|o| matches!(o, Op::ReadExact(..)));
-        let first_limit = t.steps.iter().position(|s| step_result_is_limit(&s.ev));
+        // Histories without exact-count reads are followed THROUGH refusals: a refused call gathers nothing, so the
+        // cursor stays where it is and a later (possibly more permissive, see SetPolicy) policy must let the stream
+        // continue undisturbed. With exact-count reads a refusal may discard a partly gathered batch; those histories
+        // are checked up to the first refusal only (what follows is C06's subject).
+        let first_limit = if has_exact { t.steps.iter().position(|s| step_result_is_limit(&s.ev)) } else { None };
         // (3) BufferLimit iff the policy refused during that call
         for (si, s) in t.steps.iter().enumerate() {
             let refused = events.iter().any(|e| e.op == si && e.answer.is_none());
@@ -299,15 +303,23 @@ impl Prop for Growth {
             }
             ctx.class("history without exact reads (only-when-needed clause applies)");
         }
-        // records parse normally up to the first refusal: strict model on the prefix
-        let prefix = Trace {
-            steps: t.steps[..first_limit.unwrap_or(t.steps.len())].to_vec(),
-            src: t.src.clone(),
-            pol_logs: t.pol_logs.clone(),
-            pol_installed_at: t.pol_installed_at.clone(),
-            slot_caps: t.slot_caps.clone(),
-        };
-        check_strict(&m, &prefix, false)?;
+        // records parse normally: strict cursor model (through refusals without exact reads, else on the prefix)
+        if has_exact {
+            let prefix = Trace {
+                steps: t.steps[..first_limit.unwrap_or(t.steps.len())].to_vec(),
+                src: t.src.clone(),
+                pol_logs: t.pol_logs.clone(),
+                pol_installed_at: t.pol_installed_at.clone(),
+                slot_caps: t.slot_caps.clone(),
+            };
+            check_strict(&m, &prefix, false)?;
+        } else {
+            let st = check_strict_opt(&m, &t, false, true)?;
+            if st.buffer_limits > 0 && st.records_checked > 0 {
+                ctx.class("stream followed through a refusal");
+            }
+        }
+        let any_limit = t.steps.iter().any(|s| step_result_is_limit(&s.ev));
         // classification
         if !events.is_empty() {
             ctx.class("at least one growth request");
@@ -323,8 +335,11 @@ impl Prop for Growth {
         if events.len() >= 3 {
             ctx.class("multi-step growth (>= 3 requests)");
         }
-        if first_limit.is_some() {
+        if any_limit {
             ctx.class("BufferLimit returned");
+        }
+        if any_limit && !has_exact && t.steps.iter().enumerate().any(|(i, s)| matches!(s.ev, Ev::Policy) && t.steps[..i].iter().any(|p| step_result_is_limit(&p.ev))) {
+            ctx.class("policy replaced after a refusal");
         }
         if t.pol_logs.len() > 1 && t.pol_logs[1..].iter().any(|l| !l.borrow().is_empty()) {
             ctx.class("a policy installed mid-stream was asked");
@@ -427,7 +442,7 @@ impl Prop for LongStreams {
     }
 }
 
-pub const RULE: &str = "sub-check reader-vs-recording-policy: (format, document with record extents aimed at the capacity (+-3) or soup, capacity, any policy kind incl. refusing and Add(k), chunk script, history of next / records() / read_record_set / [read_record_set_exact] / set_policy) -> (1) every grow_to argument equals the capacity adopted last (initial capacity first) and no source read asks for more bytes than the adopted size; (2) histories without exact reads: every request is justified by the extent of the record being parsed (FASTA: extent >= capacity; FASTQ: > for four terminated lines, >= for a group running to end of input); (3) a call returns BufferLimit iff the policy refused during that call, and the records before it follow the strict cursor model; (4) a replaced policy is never asked again. Sub-check long-streams: 200..3000 small records, capacity = largest extent + 1 + slack: the outcome equals the model and the policy is never asked. Sub-check policy-arithmetic: StdPolicy / DoubleUntil / DoubleUntilLimited against the documented formulas for sizes around the thresholds and up to 2^40. Non-trivial = >= 1 growth request or > 20 source reads without growth (reader), every case (others). Distinct = hash(case).";
+pub const RULE: &str = "sub-check reader-vs-recording-policy: (format, document with record extents aimed at the capacity (+-3) or soup, capacity, any policy kind incl. refusing and Add(k), chunk script, history of next / records() / read_record_set / [read_record_set_exact] / set_policy) -> (1) every grow_to argument equals the capacity adopted last (initial capacity first) and no source read asks for more bytes than the adopted size; (2) histories without exact reads: every request is justified by the extent of the record being parsed (FASTA: extent >= capacity; FASTQ: > for four terminated lines, >= for a group running to end of input); (3) a call returns BufferLimit iff the policy refused during that call; without exact reads the strict cursor model is followed THROUGH refusals (a refused call leaves the cursor where it is, so a policy installed afterwards lets the stream continue undisturbed), with exact reads up to the first refusal; (4) a replaced policy is never asked again. Sub-check long-streams: 200..3000 small records, capacity = largest extent + 1 + slack: the outcome equals the model and the policy is never asked. Sub-check policy-arithmetic: StdPolicy / DoubleUntil / DoubleUntilLimited against the documented formulas for sizes around the thresholds and up to 2^40. Non-trivial = >= 1 growth request or > 20 source reads without growth (reader), every case (others). Distinct = hash(case).";
 
 pub fn run(tier: Tier) -> i32 {
     let mut run = Run::new("C09", tier, "exploration");
